@@ -115,7 +115,10 @@ AllEnumValues(u) == UNION {Range(t.vals) : t \in {x \in Range(u.types) : x.k = "
 
 \* names a statement uses as variables (roles), and the function / instance names it refers to
 SrcVars(src) == CASE src[1] = "var" -> {src[2]} [] src[1] = "sum" -> {src[2], src[3]} [] src[1] = "fcall" -> {src[3]} [] OTHER -> {}
-WrapVars(w) == IF w[1] \in {"-", "else"} THEN {} ELSE {w[2]}
+\* FOR loops also use a variable in their FROM, TO and BY expressions: <<"forfrom" | "forto" | "forby", that variable, the control variable>>
+ForParts == {"forfrom", "forto", "forby"}
+WrapVars(w) == IF w[1] \in {"-", "else"} THEN {} ELSE IF w[1] \in ForParts THEN {w[2], w[3]} ELSE {w[2]}
+MkWrap(kind, x) == IF kind \in ForParts THEN <<kind, x, x>> ELSE <<kind, x>>
 StmtVars(s) == WrapVars(s.wrap)
                \cup (IF s.k = "assign" THEN {s.tgt} \cup SrcVars(s.src)
                      ELSE ({s.named[i][2] : i \in 1..Len(s.named)} \cup Range(s.pos) \cup {s.outs[i][2] : i \in 1..Len(s.outs)}) \ Literals)
@@ -210,7 +213,8 @@ AddStmtTo(u, i, s) == SetPou(u, i, [u.pous[i] EXCEPT !.body = Append(@, s)])
 SetStmt(u, i, j, s) == SetPou(u, i, [u.pous[i] EXCEPT !.body[j] = s])
 SetVar(u, i, j, v) == SetPou(u, i, [u.pous[i] EXCEPT !.vars[j] = v])
 PouIdx(u) == 1..Len(u.pous)
-Wraps(ctl) == {<<"if", ctl>>, <<"elsif", ctl>>, <<"else", ctl>>, <<"case", ctl>>, <<"for", ctl>>, <<"while", ctl>>, <<"repeat", ctl>>}
+Wraps(ctl) == {<<"if", ctl>>, <<"elsif", ctl>>, <<"else", ctl>>, <<"case", ctl>>, <<"for", ctl>>, <<"while", ctl>>, <<"repeat", ctl>>,
+               <<"forfrom", ctl>>, <<"forto", ctl>>, <<"forby", ctl>>}
 IntVar(p) == CHOOSE v \in VarsOf(p) : v.ty = "INT" /\ v.q # "CONSTANT" /\ v.cls \in {"VAR", "VAR_OUTPUT", "VAR_INPUT"}
 HasIntVar(p) == \E v \in VarsOf(p) : v.ty = "INT" /\ v.q # "CONSTANT" /\ v.cls \in {"VAR", "VAR_OUTPUT", "VAR_INPUT"}
 \* the control variable of a wrapper must be declared; the base POUs all have an INT variable, used as condition / selector / counter
@@ -231,12 +235,12 @@ GrowConst == \E i \in PouIdx(unit) : "nk" \notin VarNames(unit.pous[i]) /\
              Edit(<<"grow:const", unit.pous[i].n>>, AddVarTo(unit, i, V("nk", "VAR", "CONSTANT", "INT", <<"int", "3">>)))
 GrowStmt == \E i \in PouIdx(unit), w \in {NoWrap} \cup Wraps("") : HasIntVar(unit.pous[i]) /\
              LET x == IntVar(unit.pous[i]).n
-                 ww == IF w = NoWrap THEN NoWrap ELSE <<w[1], x>>
+                 ww == IF w = NoWrap THEN NoWrap ELSE MkWrap(w[1], x)
              IN  Edit(<<"grow:stmt", unit.pous[i].n, w[1]>>, AddStmtTo(unit, i, A(ww, x, <<"sum", x, x>>)))
 GrowWrap == \E i \in PouIdx(unit), j \in 1..3, w \in Wraps("") :
              /\ j <= Len(unit.pous[i].body) /\ unit.pous[i].body[j].wrap = NoWrap /\ HasIntVar(unit.pous[i])
              /\ Edit(<<"grow:wrap", unit.pous[i].n, j, w[1]>>,
-                     SetStmt(unit, i, j, [unit.pous[i].body[j] EXCEPT !.wrap = <<w[1], IntVar(unit.pous[i]).n>>]))
+                     SetStmt(unit, i, j, [unit.pous[i].body[j] EXCEPT !.wrap = MkWrap(w[1], IntVar(unit.pous[i]).n)]))
 GrowEnumValue == "TOP" \notin Range(unit.types[1].vals) /\ Edit(<<"grow:enumvalue">>, [unit EXCEPT !.types[1].vals = Append(@, "TOP")])
 GrowStructElem == (\A i \in 1..Len(unit.types[3].elems) : unit.types[3].elems[i].n # "z") /\ Edit(<<"grow:structelem">>, [unit EXCEPT !.types[3].elems = Append(@, [n |-> "z", ty |-> "INT", init |-> NoInit])])
 GrowType == "COLOR" \notin TypeNames(unit) /\ Edit(<<"grow:type">>, [unit EXCEPT !.types = Append(@, [n |-> "COLOR", k |-> "enum", vals |-> <<"RED", "GREEN">>, def |-> "RED"])])
@@ -284,7 +288,7 @@ PlantUndeclaredVar ==
                    SetStmt(unit, i, j,
                      CASE role = "tgt"  -> [s EXCEPT !.tgt = zz]
                        [] role = "src"  -> [s EXCEPT !.src = IF s.src[1] = "var" THEN <<"var", zz>> ELSE IF s.src[1] = "sum" THEN <<"sum", s.src[2], zz>> ELSE <<"fcall", s.src[2], zz>>]
-                       [] role = "wrap" -> [s EXCEPT !.wrap = <<s.wrap[1], zz>>]
+                       [] role = "wrap" -> [s EXCEPT !.wrap[2] = zz]
                        [] role = "arg"  -> [s EXCEPT !.named[1] = <<s.named[1][1], zz>>]
                        [] role = "out"  -> [s EXCEPT !.outs[1] = <<s.outs[1][1], zz>>]
                        [] role = "pos"  -> [s EXCEPT !.pos[1] = zz]))
